@@ -29,6 +29,7 @@ func runC09(c *Ctx) {
 	c.ruleR09b("R09b returned-positions")
 	c.ruleR09c("R09c anchored-consistently-keyed-regexps")
 	c.ruleR09d("R09d remaining-and-eof-linear-form")
+	c.ruleR09e("R09e word-boundary-alphabet")
 }
 
 // readerFns: the methods of *text.Reader.
@@ -574,3 +575,154 @@ func (c *Ctx) ruleR09d(rule string) {
 }
 
 var _ = load.PkgOf
+
+// ruleR09e: MatchWord refuses a match exactly when the byte after the word is a word character [A-Za-z0-9_].
+// The boundary test is folded for each of the 256 byte values (helper predicates included).
+func (c *Ctx) ruleR09e(rule string) {
+	c.R.Rule(rule, "the byte following a matched word rejects the match iff it is one of A-Z a-z 0-9 _ (finite-domain folding of the boundary test)", 1)
+	var fn *ssa.Function
+	for _, f := range c.readerFns() {
+		if f.Name() == "MatchWord" {
+			fn = f
+		}
+	}
+	if fn == nil {
+		c.R.Fail("coverage-lost", rule, "MatchWord", "-", "-", "(*text.Reader).MatchWord not found")
+		return
+	}
+	name := c.name(fn)
+	m := c.model()
+	lf := c.linFn(fn)
+	var word, pos *ssa.Parameter
+	for _, p := range fn.Params[1:] {
+		if bt, ok := p.Type().Underlying().(*types.Basic); ok && bt.Info()&types.IsString != 0 {
+			word = p
+		}
+		if ssax.NamedIs(p.Type(), "parsley", "Pos") {
+			pos = p
+		}
+	}
+	if word == nil || pos == nil || !m.ok {
+		c.R.Undecided(rule, name+" shape", name, c.P.Pos(fn.Pos()), "parameters not recognised")
+		return
+	}
+	// the byte right after the word: data[cur + len(word)]
+	after := lin.Atom(pos.Name()).Sub(lin.Atom(c.offsetAtom(fn.Params[0].Name()))).Add(lf.LenOf(word))
+	var bytes []ssa.Value
+	for _, b := range fn.Blocks {
+		for _, in := range b.Instrs {
+			u, ok := in.(*ssa.UnOp)
+			if !ok || u.Op != token.MUL {
+				continue
+			}
+			ia, ok := u.X.(*ssa.IndexAddr)
+			if !ok {
+				continue
+			}
+			if _, f, isLoad := fieldLoad(ia.X); !isLoad || f != m.Data {
+				continue
+			}
+			d := lf.Norm(ia.Index).Sub(after)
+			if d.IsConst() && d.K == 0 {
+				bytes = append(bytes, u)
+			}
+		}
+	}
+	if len(bytes) == 0 {
+		c.R.Undecided(rule, name+" boundary byte", name, c.P.Pos(fn.Pos()), "no read of the byte following the word (data[cur+len(word)]) found: the word-boundary test left the recognised shape")
+		return
+	}
+	isByte := func(v ssa.Value) bool {
+		for _, b := range bytes {
+			if v == b {
+				return true
+			}
+		}
+		return false
+	}
+	start := bytes[0].(ssa.Instruction).Block()
+	var wrong []string
+	undec := false
+	for v := int64(0); v < 256; v++ {
+		acc, rej := false, false
+		seen := map[*ssa.BasicBlock]bool{}
+		var walk func(b *ssa.BasicBlock, from *ssa.BasicBlock, env benv)
+		walk = func(b *ssa.BasicBlock, from *ssa.BasicBlock, env benv) {
+			if seen[b] {
+				return
+			}
+			seen[b] = true
+			e2 := benv{}
+			for k, val := range env {
+				e2[k] = val
+			}
+			for _, in := range b.Instrs {
+				if ph, ok := in.(*ssa.Phi); ok {
+					if from != nil {
+						for i, p := range b.Preds {
+							if p == from {
+								if r := foldValue(ph.Edges[i], e2, 0); r.known {
+									e2[ph] = r
+								}
+							}
+						}
+					}
+					continue
+				}
+				if val, ok := in.(ssa.Value); ok {
+					if isByte(val) {
+						e2[val] = bval{known: true, i: v}
+					} else if r := foldValue(val, e2, 0); r.known {
+						e2[val] = r
+					}
+				}
+			}
+			switch t := b.Instrs[len(b.Instrs)-1].(type) {
+			case *ssa.Return:
+				if k, isC := ssax.ConstBool(t.Results[1]); isC {
+					if k {
+						acc = true
+					} else {
+						rej = true
+					}
+				} else {
+					undec = true
+				}
+			case *ssa.If:
+				cd := foldValue(t.Cond, e2, 0)
+				if cd.known && cd.isB {
+					if cd.b {
+						walk(b.Succs[0], b, e2)
+					} else {
+						walk(b.Succs[1], b, e2)
+					}
+				} else if dependsOnByte(t.Cond, isByte, map[ssa.Value]bool{}) {
+					undec = true // depends on the byte but cannot be folded (e.g. a call outside the library)
+				} else {
+					walk(b.Succs[0], b, e2)
+					walk(b.Succs[1], b, e2)
+				}
+			case *ssa.Jump:
+				walk(b.Succs[0], b, e2)
+			}
+		}
+		walk(start, nil, benv{})
+		isWord := v >= 'a' && v <= 'z' || v >= 'A' && v <= 'Z' || v >= '0' && v <= '9' || v == '_'
+		switch {
+		case acc && rej:
+			undec = true
+		case isWord && acc, !isWord && rej:
+			if len(wrong) < 8 {
+				wrong = append(wrong, fmt.Sprintf("0x%02X", v))
+			}
+		}
+	}
+	switch {
+	case undec:
+		c.R.Undecided(rule, name+" boundary test not foldable", name, c.P.InstrPos(bytes[0].(ssa.Instruction)), "the word-boundary test depends on the following byte in a way that cannot be folded over the 256 byte values (e.g. it calls a function outside the library such as unicode.IsLetter, whose notion of a letter differs from the documented ASCII word characters for bytes >= 0x80)")
+	case len(wrong) > 0:
+		c.R.Violation(rule, name+" word-character set", name, c.P.InstrPos(bytes[0].(ssa.Instruction)), "the byte following a word is classified differently from the documented word characters [A-Za-z0-9_] for "+strings.Join(wrong, ", ")+"…: a keyword is matched as a prefix of a longer identifier, or refused before a non-word byte")
+	default:
+		c.R.Hold(rule, name+" boundary test", "rejects exactly for A-Z a-z 0-9 _ (256 byte values folded)")
+	}
+}
